@@ -106,6 +106,14 @@ def barycentric_table(ctx):
         raise AnalysisError("barycentric connectivity: expected one loop over elements")
     loop = loops[0]
     idx = loop.target.id
+    rets = [s for s in fn.body if isinstance(s, ast.Return)]
+    if len(rets) != 1 or not (isinstance(rets[0].value, ast.Tuple) and len(rets[0].value.elts) == 2 and all(isinstance(e, ast.Name) for e in rets[0].value.elts)):
+        raise AnalysisError("barycentric connectivity: expected `return <vertices>, <elements>`")
+    n_vertices, n_elements = (e.id for e in rets[0].value.elts)
+    counters = {s.target.id for s in ast.walk(loop) if isinstance(s, ast.AugAssign) and isinstance(s.target, ast.Name) and isinstance(s.op, ast.Add) and isinstance(s.value, ast.Constant) and s.value.value == 1}
+    if len(counters) != 1:
+        raise AnalysisError("barycentric connectivity: no single running vertex counter in the element loop (%s)" % sorted(counters))
+    counter = counters.pop()
     # meaning of local_vertex_ids[k] and midpoint_index, from the vertex creation statements
     mid_name = None
     lvi_name = None
@@ -113,7 +121,7 @@ def barycentric_table(ctx):
     for st in ast.walk(loop):
         if isinstance(st, ast.Assign) and isinstance(st.targets[0], ast.Subscript) and isinstance(st.value, ast.BinOp) and isinstance(st.value.op, ast.Mult):
             tgt = unparse(st.targets[0])
-            if not tgt.startswith("new_vertices["):
+            if not tgt.startswith(n_vertices + "["):
                 continue
             try:
                 c = frac(st.value.left)
@@ -136,7 +144,7 @@ def barycentric_table(ctx):
             if not e_ok:
                 lvi_name = None
     for st in ast.walk(loop):
-        if isinstance(st, ast.Assign) and isinstance(st.targets[0], ast.Name) and isinstance(st.value, ast.Name) and st.value.id == "number_of_vertices":
+        if isinstance(st, ast.Assign) and isinstance(st.targets[0], ast.Name) and isinstance(st.value, ast.Name) and st.value.id == counter:
             mid_name = st.targets[0].id
     # (what the two kinds of vertices *are* is decided by rule BARY-VERTICES; here only their names are needed)
     if not (lvi_name and mid_name):
@@ -146,7 +154,7 @@ def barycentric_table(ctx):
         if not (isinstance(st, ast.Assign) and isinstance(st.targets[0], ast.Subscript)):
             continue
         t = st.targets[0]
-        if not (isinstance(t.value, ast.Name) and t.value.id == "new_elements" and isinstance(t.slice, ast.Tuple) and len(t.slice.elts) == 2):
+        if not (isinstance(t.value, ast.Name) and t.value.id == n_elements and isinstance(t.slice, ast.Tuple) and len(t.slice.elts) == 2):
             continue
         r = t.slice.elts[0]
         if not (isinstance(r, ast.Constant) and r.value in (0, 1, 2)):
